@@ -282,7 +282,7 @@ static std::string keyList(const vj::Value& cfg, const vj::Value& idxs, int styl
 }
 
 struct Built;
-static std::unique_ptr<Built> buildImpl(const vj::Value& cfg, bool grouped, int extraFlags);
+static std::unique_ptr<Built> buildImpl(const vj::Value& cfg, bool grouped, int extraFlags, Handler* mainAh = nullptr);
 struct Built {
    std::vector<std::unique_ptr<ISlot>> slots;
    std::vector<int> aux;                                // second variables of pair arguments (one per argument, 0 when unused)
@@ -291,8 +291,26 @@ struct Built {
    std::unique_ptr<Handler> single;                     // mode handler/string
    std::vector<std::shared_ptr<Handler>> members;       // mode groups
    std::vector<std::unique_ptr<Built>> subs;            // sub-group handlers (kind "sub"), kept alive with the main one
+   std::vector<int> subOf;                              // per argument: index into subs, -1 for ordinary arguments
    bool setupFailed = false;
    std::string setupWhat;
+   // projections: a sub-group argument shows the destinations (second variables) of its handler's arguments as a nested list
+   std::string destJson() const {
+      std::string d = "[";
+      for (size_t i = 0; i < slots.size(); ++i) {
+         if (i) d += ',';
+         d += (i < subOf.size() && subOf[i] >= 0) ? subs[static_cast<size_t>(subOf[i])]->destJson() : slots[i]->json();
+      }
+      return d + "]";
+   }
+   std::string auxJson() const {
+      std::string d = "[";
+      for (size_t i = 0; i < aux.size(); ++i) {
+         if (i) d += ',';
+         d += (i < subOf.size() && subOf[i] >= 0) ? subs[static_cast<size_t>(subOf[i])]->auxJson() : std::to_string(aux[i]);
+      }
+      return d + "]";
+   }
 };
 
 static int handlerFlags(const vj::Value& cfg) {
@@ -314,7 +332,8 @@ static int handlerFlags(const vj::Value& cfg) {
 static void applyArgSettings(const vj::Value& cfg, const vj::Value& a, TypedArgBase* t) {
    using namespace celma::prog_args;
    const std::string vm = a["vm"].str();
-   if (vm == "opt" && a["kind"].str() != "level") t->setValueMode(Handler::ValueMode::optional);
+   if (vm == "cmd") t->setValueMode(Handler::ValueMode::command);            // std::string destinations only (refused otherwise)
+   else if (vm == "opt" && a["kind"].str() != "level") t->setValueMode(Handler::ValueMode::optional);
    else if (vm == "req" && a["kind"].str() == "flag") t->setValueMode(Handler::ValueMode::required);
    if (a["unset"].boolean()) t->unsetFlag();
    if (a["mand"].boolean()) t->setIsMandatory();
@@ -381,30 +400,36 @@ static void addHandlerConstraints(const vj::Value& cfg, Handler& h, int member, 
 static std::unique_ptr<Built> build(const vj::Value& cfg, bool grouped, int extraFlags = 0) {
    return buildImpl(cfg, grouped, extraFlags);
 }
-static std::unique_ptr<Built> buildImpl(const vj::Value& cfg, bool grouped, int extraFlags) {
+static std::unique_ptr<Built> buildImpl(const vj::Value& cfg, bool grouped, int extraFlags, Handler* mainAh) {
    auto b = std::make_unique<Built>();
    const vj::Value& args = cfg["args"];
    b->aux.assign(args.size(), 0);
+   b->subOf.assign(args.size(), -1);
    const int flags = handlerFlags(cfg) | extraFlags;
    int nmembers = 1;
    if (grouped) {
       for (size_t i = 0; i < args.size(); ++i) nmembers = std::max(nmembers, static_cast<int>(args[i]["grp"].num()) + 1);
       for (int m = 0; m < nmembers; ++m) b->members.push_back(Groups::instance(b->out, b->err).getArgHandler("g" + std::to_string(m), flags));
+   } else if (mainAh != nullptr) {
+      // "constructor to be used by a sub-group": output streams and usage settings are taken from the main handler
+      b->single = std::make_unique<Handler>(*mainAh, flags);
    } else {
       b->single = std::make_unique<Handler>(b->out, b->err, flags);
    }
    for (size_t i = 0; i < args.size(); ++i) {
       const vj::Value& a = args[i];
       if (a["kind"].str() == "sub") {
-         // sub-group (C04, raw events only): a nested handler entered by this key
+         // sub-group: a nested handler entered by this key; its destinations are projected as a nested list
          b->slots.push_back(makeSlot("flag", vj::Value()));
          Handler& hs = grouped ? *b->members[static_cast<size_t>(a["grp"].num())] : *b->single;
          try {
-            auto sb = buildImpl(a["sub"], false, 0);
+            auto sb = buildImpl(a["sub"], false, 0, a["subctor"].num() == 1 ? &hs : nullptr);
             if (sb->setupFailed) throw std::runtime_error(sb->setupWhat);
-            hs.addArgument(keySpec(a), *sb->single, "D" + std::to_string(i + 1));
+            TypedArgBase* t = hs.addArgument(keySpec(a), *sb->single, "D" + std::to_string(i + 1));
+            b->subOf[i] = static_cast<int>(b->subs.size());
             b->subs.push_back(std::move(sb));
             b->defineRes.push_back("ok");
+            if (a["mand"].boolean()) t->setIsMandatory();
          } catch (const std::exception& e) { b->defineRes.push_back("refused"); b->setupFailed = true; b->setupWhat = e.what(); break; }
          continue;
       }
@@ -560,10 +585,8 @@ static void doEval(const vj::Value& cfg, const vj::Value& act, const std::string
       } catch (const std::exception& e) { out = "err"; what = e.what(); }
       catch (...) { out = "nonstd"; }
       if (out == "ok") {
-         dest = "[";
-         for (size_t i = 0; i < b->slots.size(); ++i) { if (i) dest += ','; dest += b->slots[i]->json(); }
-         dest += "]";
-         aux = intList(b->aux.begin(), b->aux.end());
+         dest = b->destJson();
+         aux = b->auxJson();
       }
    }
    for (auto& fn : written) unlink(fn.c_str());
